@@ -24,6 +24,7 @@ import (
 	"github.com/dapr/kit/logger"
 	"github.com/spiffe/go-spiffe/v2/bundle/x509bundle"
 	"github.com/spiffe/go-spiffe/v2/spiffeid"
+	"github.com/spiffe/go-spiffe/v2/svid/x509svid"
 	"pgregory.net/rapid"
 
 	"verifharness/vk"
@@ -79,11 +80,13 @@ type request struct {
 }
 
 type issuer struct {
-	mu     sync.Mutex
-	script []response
-	reqs   []request
-	gate   chan struct{} // if non-nil the first request blocks on it
-	serial int64
+	src     x509svid.Source // if set, renewal requests consult the SVID source (as a real issuer client does for mTLS)
+	srcErrs []string
+	mu      sync.Mutex
+	script  []response
+	reqs    []request
+	gate    chan struct{} // if non-nil the first request blocks on it
+	serial  int64
 }
 
 func (is *issuer) fn(ctx context.Context, csrDER []byte) ([]*x509.Certificate, error) {
@@ -99,6 +102,15 @@ func (is *issuer) fn(ctx context.Context, csrDER []byte) ([]*x509.Certificate, e
 	is.mu.Unlock()
 	if idx == 0 && gate != nil {
 		<-gate
+	}
+	if idx > 0 && is.src != nil {
+		// A renewal request is made with the identity currently served: the source must answer while it is in flight.
+		sv, err := is.src.GetX509SVID()
+		if err != nil || sv == nil {
+			is.mu.Lock()
+			is.srcErrs = append(is.srcErrs, fmt.Sprintf("request %d: GetX509SVID during the renewal request returned (%v, %v)", idx, sv, err))
+			is.mu.Unlock()
+		}
 	}
 	resp := response{Validity: 10 * 365 * 24 * time.Hour}
 	if idx < len(is.script) {
@@ -370,6 +382,7 @@ func runRenew(t *testing.T, c renewCase) (out renewOutcome, err error) {
 		}
 		s := spiffe.New(opts)
 		src := s.SVIDSource()
+		is.src = src
 		ctx, cancel := context.WithCancel(context.Background())
 		defer cancel()
 		var runErr error
@@ -381,10 +394,20 @@ func runRenew(t *testing.T, c renewCase) (out renewOutcome, err error) {
 				errs.Failf("%v\n%s", e, p.Dump)
 				return false
 			}
+			if p.OnMutex > 0 {
+				vk.Wedged(fmt.Sprintf("C19 SPIFFE violated: at a quiescent point %d goroutine(s) are parked on the SPIFFE lock (a renewal request that consults the SVID source, or a consumer, can never proceed): deadlock\ncase: %s", p.OnMutex, c))
+			}
 			return true
 		}
 		check := func(step string) bool {
 			now := time.Now()
+			is.mu.Lock()
+			srcErrs := append([]string(nil), is.srcErrs...)
+			is.mu.Unlock()
+			if len(srcErrs) > 0 {
+				errs.Failf("after %s: %s", step, srcErrs[0])
+				return false
+			}
 			reqs := is.snapshot()
 			if len(reqs) == 0 {
 				errs.Failf("after %s: no certificate was ever requested", step)
@@ -559,7 +582,7 @@ func TestRenewal(t *testing.T) {
 	sec := vk.Sec("Renewal")
 	durs := []time.Duration{time.Second, 5 * time.Second, 10 * time.Second, 30 * time.Second, time.Minute, 90 * time.Second, 10 * time.Minute, time.Hour, 12 * time.Hour, 24 * time.Hour}
 	valid := []time.Duration{20 * time.Second, time.Minute, 2 * time.Minute, 3 * time.Minute, 10 * time.Minute, time.Hour, 24 * time.Hour, 365 * 24 * time.Hour}
-	vk.Check(t, 1500, 60000, func(rt *rapid.T) {
+	vk.Check(t, 1500, 400000, func(rt *rapid.T) {
 		c := renewCase{Dir: rapid.IntRange(0, 3).Draw(rt, "dir") == 0}
 		n := rapid.IntRange(0, 6).Draw(rt, "nscript")
 		for i := 0; i < n; i++ {
